@@ -50,8 +50,12 @@ def optIdsStr (l : List (Option ObjRec)) : String :=
 def dstr (px py : Rat) (l : List ObjRec) : String :=
   " ".intercalate (l.map fun o => ratStr (odist px py o))
 
-def judgeQuery (h : Hist) (s : List ObjRec) (t : Tree ObjRec) (treeSame : Bool) (q : KQ) (a : Tok) : Option String :=
+/-- the relative tolerance on squared distances for the `specOnly` (non-dyadic) families -/
+def roundEps : Rat := 1 / 1099511627776
+
+def judgeQuery (h : Hist) (s : List ObjRec) (t : Tree ObjRec) (treeSame : Bool) (specOnly : Bool) (q : KQ) (a : Tok) : Option String :=
   let exact := h.maxC ≤ 11 && treeSame
+  let eps : Rat := if specOnly then roundEps else 0
   let at_ := s!"p=({ratStr q.x},{ratStr q.y})-k={q.k}-stored={s.length}"
   if q.nn then
     let m := nearestNeighbor stableOrder t q.x q.y
@@ -63,8 +67,9 @@ def judgeQuery (h : Hist) (s : List ObjRec) (t : Tree ObjRec) (treeSame : Bool) 
       match id.toNat?.bind (h.pool[·]?) with
       | none => some s!"SPEC NearestNeighbor-returned-nil-or-foreign-object-{at_}"
       | some o =>
-        if !specNN s q.x q.y o then
+        if !(if specOnly then specNNTol eps s q.x q.y o else specNN s q.x q.y o) then
           some s!"SPEC NearestNeighbor-{at_}-returned-{o.id}-at-dist2={ratStr (odist q.x q.y o)}-min-is-{ratStr ((s.map (odist q.x q.y)).foldl min (odist q.x q.y o))}"
+        else if specOnly then none
         else match m with
           | .ok mo => if exact && mo != o then some s!"DIFF nn-object-differs-from-model-{at_}" else none
           | .error f => if treeSame then some s!"DIFF nn-model-faults-{at_}" else none
@@ -84,8 +89,9 @@ def judgeQuery (h : Hist) (s : List ObjRec) (t : Tree ObjRec) (treeSame : Bool) 
       match c.toNat?.bind (fun c => pOptIds h.pool c ids) with
       | none => some s!"SPEC NearestNeighbors-returned-foreign-object-{at_}"
       | some res =>
-        if !specKNN s q.k.toNat q.x q.y res then
+        if !(if specOnly then specKNNTol eps s q.k.toNat q.x q.y res else specKNN s q.k.toNat q.x q.y res) then
           some s!"SPEC NearestNeighbors-{at_}-returned=[{optIdsStr res}]-dist2=[{dstr q.x q.y (res.filterMap id)}]"
+        else if specOnly then none
         else match nearestNeighborsInt stableOrder t q.k q.x q.y with
           | .ok mr => if exact && mr != res then some s!"DIFF knn-objects-differ-from-model-{at_}-model=[{optIdsStr mr}]-impl=[{optIdsStr res}]" else none
           | .error f => if treeSame then some s!"DIFF knn-model-faults-{at_}" else none
@@ -95,6 +101,10 @@ def judgeQuery (h : Hist) (s : List ObjRec) (t : Tree ObjRec) (treeSame : Bool) 
 judged at that moment (Spec verdict against `s`, model answer on the model tree of that moment) -/
 def judgeHist (h : Hist) (kqs : Array KQ) (groups : List Tok) : String := Id.run do
   let cls := h.cls
+  -- families whose class says "specOnly" (non-dyadic coordinates: the float arithmetic of the tree heuristics and
+  -- of the distances is inexact; the tree may differ from the exact model by tie-breaking) are judged by the
+  -- Spec only, distances up to the relative tolerance `roundEps`; no comparison with the model
+  let specOnly := (h.cls.splitOn "specOnly").length > 1
   -- a panic inside Insert/Delete ends the implementation's run
   for g in groups do
     if g.head? == some "oppanic" then
@@ -108,7 +118,7 @@ def judgeHist (h : Hist) (kqs : Array KQ) (groups : List Tok) : String := Id.run
     match st with
     | .op _ o =>
       s := specStep s o
-      model := match model with
+      model := if specOnly then model else match model with
         | some t => match t.step goHeur o with | .ok (t', _) => some t' | .error _ => none
         | none => none
     | .query j =>
@@ -117,7 +127,7 @@ def judgeHist (h : Hist) (kqs : Array KQ) (groups : List Tok) : String := Id.run
         gs := rest
         nq := nq + 1
         let mt := model.getD (newTree h.minC h.maxC)
-        match judgeQuery h s mt model.isSome q a with
+        match judgeQuery h s mt (model.isSome && !specOnly) specOnly q a with
         | some v => verdicts := verdicts.push s!"{v}-(query#{nq})"
         | none => pure ()
       | _, _ => return s!"SPEC {cls} missing-answers"
@@ -131,7 +141,7 @@ def judgeHist (h : Hist) (kqs : Array KQ) (groups : List Tok) : String := Id.run
     match pNode h.pool 64 t with
     | none => return s!"SPEC {cls} malformed-tree-after-history(C11)"
     | some (n, pok, _) =>
-      let treeSame := match model with | some mt => nodeStr n == nodeStr mt.root | none => false
+      let treeSame := specOnly || match model with | some mt => nodeStr n == nodeStr mt.root | none => false
       match verdicts.toList.find? (·.startsWith "SPEC"), verdicts.toList.head? with
       | some m, _ => return s!"SPEC {cls} {(m.drop 5).toString}"
       | none, some m =>
@@ -139,7 +149,7 @@ def judgeHist (h : Hist) (kqs : Array KQ) (groups : List Tok) : String := Id.run
         return s!"DIFF {cls} {(m.drop 5).toString}"
       | none, none =>
         if !treeSame then return s!"DIFF {cls} final-tree-differs-from-model(C11)"
-        return s!"OK {cls}-h{(model.map (·.height)).getD 0}-q{nq}"
+        return s!"OK {cls}-h{if specOnly then dp else toString ((model.map (·.height)).getD 0)}-q{nq}"
   | _ => return s!"SPEC {cls} missing-final-dump"
 
 def judgeLine (line : String) : String :=
